@@ -242,6 +242,10 @@ impl Scenario for C06 {
         if rep.inconclusive.is_some() || !rep.violations.is_empty() {
             return rep;
         }
+        if let Some(e) = res.hist.conn.iter().find_map(|c| if let ConnRec::Open { result: Err(e), .. } = c { Some(e.clone()) } else { None }) {
+            rep.violate("ending", "handshake-frames-not-decoded", format!("the cooperative handshake (real frames, whole segments) failed: {}", e));
+            return rep;
+        }
         let n = world.net.lock().unwrap();
         // where the stream starts in the server->client byte stream
         let start = world.broker.sent.iter().find(|s| matches!(s.kind, SentKind::Raw)).map(|s| s.s2c_start);
